@@ -13452,3 +13452,8 @@ func extraNoMapWriteUnderRLock(c *Ctx, r *Report, rule string) {
 	addMutants(Mutant{Prop: rule[:3], Name: "failure-count-incremented-under-rlock", File: "internal/adapter/discovery/service.go", Rule: rule,
 		Old: "func (s *ModelDiscoveryService) incrementFailureCount(endpointURL string) {\n	s.mu.Lock()\n	defer s.mu.Unlock()\n", New: "func (s *ModelDiscoveryService) incrementFailureCount(endpointURL string) {\n	s.mu.RLock()\n	defer s.mu.RUnlock()\n"})
 }
+
+func init() {
+	// C11: a reload replaces every endpoint record (the provider a prefix serves is the type in the NEW configuration)
+	registerExtra("C11", func(c *Ctx, r *Report) { extraReloadBuildsFresh(c, r, "C11-R14") })
+}
